@@ -600,8 +600,6 @@ class Macros:
     def names(self) -> list[str]:
         self.template.cook_check()
 
-        result = []
-        for name in self.template.__dict__:
-            if name.startswith('_render_'):
-                result.append(name[8:])
-        return result
+        # (not read off the instance dictionary: a concurrent caller may
+        # still be adding to it, and it keeps the order of old versions)
+        return list(self.template._macro_names)
